@@ -868,3 +868,49 @@ def special_point(body: Body, kind: str, u):
             return None
         return np.array(v[0], dtype=float), "vertex"
     return None
+
+
+# --------------------------------------------------------------------------------------
+# distance to the special sets INCLUDING their prolongations (edge lines, planes z=z_k, cylinders
+# r=r_i, half planes phi=phi_j, the axis): where the closed forms are documented to lose accuracy
+
+
+def _dist_to_lines(P, A, B):
+    P = np.atleast_2d(P)[:, None, :]
+    t = unit(np.asarray(B) - np.asarray(A))[None]
+    d = P - np.asarray(A)[None]
+    perp = d - np.sum(d * t, -1, keepdims=True) * t
+    return np.min(np.linalg.norm(perp, axis=-1), axis=1)
+
+
+def special_dist(body: Body, P):
+    """distance (absolute) from points P to the nearest special set of the body, prolongations included"""
+    P = np.atleast_2d(np.asarray(P, dtype=float))
+    if isinstance(body, Polyhedron):
+        ed = body.edges()
+        if not ed:
+            return body.dist(P)
+        A = np.array([e[0] for e in ed])
+        B = np.array([e[1] for e in ed])
+        return np.minimum(_dist_to_lines(P, A, B), body.dist(P))
+    if isinstance(body, PolylineBody):
+        m = np.any(body.V[:-1] != body.V[1:], axis=1)
+        return _dist_to_lines(P, body.V[:-1][m], body.V[1:][m])
+    if isinstance(body, CylSeg):
+        r = np.hypot(P[:, 0], P[:, 1])
+        phi = np.arctan2(P[:, 1], P[:, 0])
+        z = P[:, 2]
+        d = np.minimum(np.abs(r - body.r2), np.minimum(np.abs(z - body.h / 2), np.abs(z + body.h / 2)))
+        d = np.minimum(d, r)
+        if body.r1 > 0:
+            d = np.minimum(d, np.abs(r - body.r1))
+        if not body.full:
+            for ang in (body.phi1, body.phi2):
+                d = np.minimum(d, np.abs(r * np.sin(phi - ang)))
+        return d
+    if isinstance(body, SphereBody):
+        return body.dist(P)
+    if isinstance(body, CircleBody):
+        r = np.hypot(P[:, 0], P[:, 1])
+        return np.minimum(body.dist(P), np.minimum(np.abs(r - body.R) + 0 * r, np.maximum(r, 0)))
+    return body.dist(P)
